@@ -341,6 +341,21 @@ fn suite_random(g: &Gram, out: &mut Out, rng: &mut Rng, n: usize) {
 /// whether it accepts them; rejected inputs are outside C01).
 fn suite_raw(g: &Gram, out: &mut Out, rng: &mut Rng, n: usize) {
     let bad_strings: Vec<Vec<u8>> = vec![vec![0xff], vec![b'a', 0x80, b'b'], vec![0xc3], vec![0xe2, 0x82], vec![b'o', b'k', 0xf0, 0x9f, 0x98], vec![0xed, 0xa0, 0x80], vec![0xc0, 0xaf]];
+    // a binary that breaks off inside an open block / an open function and is followed by zero words (padding): not a
+    // module - if the loader nevertheless accepts it, the instructions of the unfinished function are lost (C01: none
+    // dropped; C05: not well-bracketed)
+    for (j, body) in [vec![(5u32 << 16) | 54, 9001, 9002, 0, 9003, (2 << 16) | 248, 9004, 1 << 16],
+                      vec![(5 << 16) | 54, 9001, 9002, 0, 9003],
+                      vec![(2 << 16) | 17, 1, (5 << 16) | 54, 9001, 9002, 0, 9003, (2 << 16) | 248, 9004, (1 << 16) | 253, (2 << 16) | 248, 9005]].iter().enumerate() {
+        for zeros in 1..4usize {
+            let mut ws: Vec<u32> = HEADER.to_vec();
+            ws[3] = 9100;
+            ws.extend(body.iter());
+            ws.extend(std::iter::repeat(0u32).take(zeros));
+            let via = if (j + zeros) % 2 == 0 { load_words_event(&ws) } else { load_via_event(&ws, "bytes", &[]) };
+            out.ev(json!({"ev": "rawload", "tag": "raw-zerotail", "layout": true, "in_words": jws(&ws), "in_version": jw(ws[1]), "in_bound": jw(ws[3]), "words": via}));
+        }
+    }
     for k in 0..n {
         let (mut insts, layout) = random_loadable(g, rng, false, 2);
         let mut tag = "raw-plain";
